@@ -89,6 +89,8 @@ def two_stages(methods, free_second):
     c = ctx()
     master = Ocp()
     v0 = master.variable()
+    q0 = master.parameter()
+    master.set_value(q0, unknown("q0_value", 1, 1))
     s1 = Spec(method=methods[0], N=2, M=1, degree=2, T=("fixed", 1.0), t0=("fixed", 0.0), states=[2], params={"": [1]}, variables={"control": [1]},
               ode=E("f", None, ("x", "u", "t", "p", "vc")), constraints=[Con(E("c1", 1, ("x", "u", "t")), "le", 1.0), Con(E("b1", 2, (("at", "t0", "x"),)), "eq", 0.0)],
               objective=[("integral", E("L1", 1, ("x", "u"))), ("at_tf", E("M1", 1, ("x", "T")))])
@@ -98,22 +100,38 @@ def two_stages(methods, free_second):
     s1.build(parent=master)
     s2.build(parent=master)
     x1, x2 = s1.sym["x"][0], s2.sym["x"][0]
-    link = ufun("link", 1, [s1.ocp.at_tf(x1), s2.ocp.at_t0(x2), v0])
+    link = ufun("link", 1, [s1.ocp.at_tf(x1), s2.ocp.at_t0(x2), v0, q0])
     master.subject_to(link == 0)
-    master.add_objective(ufun("m0", 1, [v0]))
+    master.add_objective(ufun("m0", 1, [v0, q0]))
+    # a stage constraint that mentions the master's own variable AND parameter (resolved by the master's eval_top)
+    s1.ocp.subject_to(ufun("cm", 1, [x1, v0, q0]) <= 4.0)
     master.solver("ipopt")
     inst = "C12/two-stages[%s+%s%s]" % (methods[0], methods[1], ",T2 free" if free_second else "")
 
     def master_rows(parts):
         o1, o2 = parts[0][0]._orc, parts[1][0]._orc
-        V0 = master._augmented._method.V[0] if False else ca.MX(master._augmented._method.V)
-        return [(("link",), "eq", ufun("link", 1, [o1.X[-1], o2.X[0], V0]))]
+        mm = master._augmented._method
+        V0, Q0 = ca.MX(mm.V), ca.MX(mm.P[0])
+        rows = [(("link",), "eq", ufun("link", 1, [o1.X[-1], o2.X[0], V0, Q0]))]
+        for j in range(len(o1.X)):
+            rows.append((("stage-constraint-with-master-symbols", j), "le", ufun("cm", 1, [o1.X[j], V0, Q0]) - 4.0))
+        return rows
     V0 = lambda: ca.MX(master._augmented._method.V)
+    Q0 = lambda: ca.MX(master._augmented._method.P[0])
     # stage objects of the transcribed copy
     master._transcribed
     aug = master._augmented
     parts = [(s1.bound_to(aug._stages[0]), aug._stages[0]._method), (s2.bound_to(aug._stages[1]), aug._stages[1]._method)]
-    union_check(inst, master, parts, master_rows, ufun("m0", 1, [V0()]))
+    union_check(inst, master, parts, master_rows, ufun("m0", 1, [V0(), Q0()]))
+    # sampling / value of expressions that mention the master's variable and parameter
+    e_s = ufun("sm", 1, [x1, v0, q0])
+    t_, val = aug._stages[0].sample(e_s, grid="control") if False else s1.ocp.sample(e_s, grid="control")
+    o1 = parts[0][0]._orc
+    nlp.prove_equal(inst + "|stage:Stage.sample:ensures:master-symbols-in-stage-expression", val, ca.hcat([ufun("sm", 1, [o1.X[j], V0(), Q0()]) for j in range(len(o1.X))]))
+    nlp.prove_equal(inst + "|stage:Stage.value:ensures:master-variable-and-parameter", master.value(ufun("vm", 1, [v0, q0])), ufun("vm", 1, [V0(), Q0()]))
+    opti = master._augmented._method.opti
+    got = ca.DM._raw(1, 1, [opti._pval[Q0().e[0].decl().name()]])
+    nlp.prove_equal(inst + "|direct_method:DirectMethod.set_parameter:ensures:master-parameter-value", got, unknown("q0_value", 1, 1))
     # stage-local accessors refer to that stage only
     nlp.prove_equal(inst + "|stage:Stage.value:ensures:stage-T-is-own-horizon", master.value(s2.ocp.T), ca.MX(parts[1][1].T))
     nlp.prove_equal(inst + "|stage:Stage.value:ensures:stage-t0", master.value(s2.ocp.t0), ca.MX(parts[1][1].t0))
